@@ -6,6 +6,7 @@ PutReference, Remove, MoveToHead/Tail, Rename, Label), on the abstract record
 (insertion-ordered association list with unique keys).  String-list modes only (no regexes).
 -/
 import MillerModel.Model.Verbs.Common
+import MillerModel.Model.Regex
 namespace Miller
 namespace Verbs
 
@@ -52,6 +53,23 @@ def cutIncludeArgOrder (fields : List Bytes) (r : Rec) : Rec :=
   fields.foldl (fun acc f => match get r f with | some v => Rec.put acc f v | none => acc) []
 /-- cut -x -f: remove the listed fields. -/
 def cutExclude (fields : List Bytes) (r : Rec) : Rec := fields.foldl remove r
+
+/-- Stable insertion by group index (`slices.SortStableFunc` on the regex index). -/
+def insertByIndex (e : Nat × (Bytes × Bytes)) : List (Nat × (Bytes × Bytes)) → List (Nat × (Bytes × Bytes))
+  | [] => [e]
+  | h :: rest => if e.1 < h.1 then e :: h :: rest else h :: insertByIndex e rest
+
+/-- cut -r [-o] [-x] -f regexes (`processWithRegexes`): a field is selected by the FIRST regex that
+matches its name; with -o the selected fields are grouped by regex in argument order, keeping
+record order within each group (stable). -/
+def cutRegex (regexes : List (Regex.Re × Nat × Bytes)) (argOrder complement : Bool) (r : Rec) : Rec :=
+  let firstMatch (k : Bytes) : Option Nat := (regexes.zipIdx.find? fun (c, _) => Regex.matchCompiled c k).map (·.2)
+  let selected := r.filterMap fun p =>
+    match firstMatch p.1 with
+    | some i => if !complement then some (i, p) else none
+    | none => if complement then some (0, p) else none
+  let ordered := if argOrder then selected.foldl (fun acc e => insertByIndex e acc) [] else selected
+  (ordered.map (·.2)).foldl (fun acc p => Rec.put acc p.1 p.2) []
 
 /-- reorder -f: the (reversed) list, each moved to the head. -/
 def reorderToStart (fields : List Bytes) (r : Rec) : Rec := fields.reverse.foldl moveToHead r
